@@ -122,5 +122,6 @@ func VerifC07_VirtualIPs() {
 	// the next assignment must not reuse an address that is still advertised
 	must(s.EnsureService(next(), "n1", &structs.NodeService{ID: "late", Service: "late", Port: 8082, Connect: structs.ServiceConnect{Native: true}}))
 	vVIPInvariants(s, "C07.vip."+name+".then-register")
+	vUsageInvariants(s, "C07.vip."+name)
 	verifrt.Reached("end")
 }
